@@ -47,9 +47,14 @@ impl RadiusAccount {
 
         let groups = Group::<()>::try_from_account_reduced(value, qs)?;
 
-        let valid_from = value.get_ava_single_datetime(Attribute::AccountValidFrom);
+        // The reduced entry only shows what the requester may read, so an absent
+        // validity attribute there does not mean the account is unrestricted. The
+        // validity window must come from the full entry.
+        let account_entry = qs.internal_search_uuid(uuid)?;
 
-        let expire = value.get_ava_single_datetime(Attribute::AccountExpire);
+        let valid_from = account_entry.get_ava_single_datetime(Attribute::AccountValidFrom);
+
+        let expire = account_entry.get_ava_single_datetime(Attribute::AccountExpire);
 
         Ok(RadiusAccount {
             name,
